@@ -395,7 +395,62 @@ def task_bgpls_mix(args):
     return n, out, classes
 
 
+def task_stateless(args):
+    """a decoder is a function of its octets: every UPDATE of the unit tests, every truncation and single-octet mutation of the link-state
+    ones among them, decoded in one process three times - in order, again, and in reverse order after all the malformed ones have been
+    seen - must give the same result each time"""
+    from yabgp.message.update import Update
+    from .. import seeds
+    if args and args[0] == 'containers':
+        # every registered link-state TLV as a container: a well-formed sub-TLV behind 0..22 octets of fixed part decodes the same
+        # before and after six containers whose sub-TLV is cut short / overruns (a refused decode must leave nothing behind)
+        decs = decoders()
+        out, n = [], 0
+        good_sub = struct.pack('!HH', 1252, 4) + b'\x20\x10\x10\x00'
+        bad_subs = (struct.pack('!HH', 1252, 4) + b'\x20', struct.pack('!HH', 1252, 1) + b'\x00', struct.pack('!HH', 1252, 9) + b'\x20\x10\x10\x00')
+        for t in args[1]:
+            for pad in (0, 4, 6, 8, 12, 22):
+                def tlv(sub):
+                    val = b'\x00' * pad + sub
+                    return struct.pack('!HH', t, len(val)) + val
+                for name in ('linkstate_tlv', 'linkstate_tlv(proto=2)'):
+                    def dec(e):
+                        st, val, steps = budget.run(20000, decs[name], e)
+                        return (st, repr(val) if st == 'ok' else type(val).__name__ if st == 'raise' else None)
+                    r0 = dec(tlv(good_sub))
+                    for _ in range(2):
+                        for b in bad_subs:
+                            dec(tlv(b))
+                    r1 = dec(tlv(good_sub))
+                    n += 8
+                    if r0 != r1:
+                        out.append(('C15|stateless|the same octets decode differently depending on what was decoded before',
+                                    {'hex': tlv(good_sub).hex(), 'decoder': name, 'first': str(r0[1])[:300], 'later': str(r1[1])[:300],
+                                     'in_between': [tlv(b).hex() for b in bad_subs]}))
+        return n, out, set([('stateless-containers', True)])
+    bodies = []
+    for body in args:
+        bodies.append(body)
+        bodies += seeds.mutations(body)
+    def dec(b):
+        st, val, steps = budget.run(300 + 60 * len(b), Update.parse, None, b, True)
+        return (st, repr(val) if st == 'ok' else type(val).__name__ if st == 'raise' else None)
+    first = [dec(b) for b in bodies]
+    second = [dec(b) for b in bodies]
+    third = [dec(b) for b in reversed(bodies)][::-1]
+    out = []
+    for b, x, y, z in zip(bodies, first, second, third):
+        if not (x == y == z):
+            out.append(('C15|stateless|the same octets decode differently depending on what was decoded before',
+                        {'hex': b.hex()[:600], 'first': x[1][:300] if x[1] else x[0], 'later': (y if y != x else z)[1][:300] if (y if y != x else z)[1] else (y if y != x else z)[0]}))
+            if len(out) >= 5:
+                break
+    return 3 * len(bodies), out, set([('stateless', len(bodies) > 0)])
+
+
 def _dispatch(t):
+    if t[0] == 'stateless':
+        return task_stateless(t[1])
     if t[0] == 'bgpls-mix':
         return task_bgpls_mix(t[1])
     return {'pairs': task_pairs, 'perms': task_perms, 'corpus': task_corpus_perms}[t[0]](t[1])
@@ -407,7 +462,9 @@ def run(tier, seed):
     decs = decoders()
     ep = dict(pools.element_pools())
     ep['ipv4_prefix(mp)'] = ep['ipv4_prefix']
-    ep.update(tlv_pools(decs))
+    # (computed in a forked child: the pools are found by trying the decoders, and the process that forks the tasks must not have
+    # decoded anything - what a decoder keeps from an earlier call would be inherited by every task)
+    ep.update(report.fresh(tlv_pools, decs))
     cap = 120 if tier == 'quick' else 300
     tasks = []
     sizes = {}
@@ -441,9 +498,17 @@ def run(tier, seed):
     cu = corpus_updates()
     for i in range(0, len(cu), 4):
         tasks.append(('corpus', cu[i:i + 4]))
-    mix = bgpls_mix_cases(decs)
+    mix = report.fresh(bgpls_mix_cases, decs)
     for i in range(0, len(mix), 150):
         tasks.append(('bgpls-mix', mix[i:i + 150]))
+    # the decoders keep nothing: the unit tests' UPDATEs (their mutations too, for those that carry link-state or SR attributes) three times
+    st_pool = [b for b, _ in cu if len(b) <= 400]
+    for i in range(0, len(st_pool), 3):
+        tasks.append(('stateless', st_pool[i:i + 3]))
+    from yabgp.message.attribute.linkstate.linkstate import LinkState
+    lt = sorted(LinkState.registered_tlvs)
+    for i in range(0, len(lt), 20):
+        tasks.append(('stateless', ('containers', lt[i:i + 20])))
     res = explore.pmap(_dispatch, tasks, chunk=1)
     nfull, extra = full_message_orders()
     explore.close_pool()
